@@ -608,6 +608,10 @@ def worker(job):
             if any(rx.search(ob.label) for rx in kspec.allow_panic):
                 res["notes"].append("documented panic not checked: " + ob.label)
                 continue
+            if ob.kind == "unsupported":
+                if not kspec.probe_only:
+                    obls.append(("infeasible", ob.label, ob.cond))
+                continue
             if not kspec.nopanic or kspec.probe_only:
                 continue
             obls.append(("nopanic:" + ob.kind, ob.label, ob.cond))
